@@ -633,3 +633,29 @@ Proof.
   - apply Z.eqb_eq in H. rewrite H in St. cbn [andb] in St.
     apply negb_false_iff, andb_true_iff in St. apply St.
 Qed.
+
+(* ---- sessions ---------------------------------------------------------------------------------------
+   every enrolment of a session rests on the answers given during its own handshake: in particular
+   a provider is enrolled only if the registry confirmed it in that very handshake, whatever it
+   answered in earlier ones *)
+Theorem session_stake_at_that_moment c steps k s A :
+  nth_error steps k = Some s ->
+  (exists r, nth_error (session c steps) k = Some r /\ res r = Enrol A type_provider) ->
+  registered (s_oracles s) A = true /\ addr_of_pid (s_oracles s) = POk A /\
+  exists r, nth_error (session c steps) k = Some r /\ lookups r = [A].
+Proof.
+  intros S (r & Hr & E). unfold session in *. rewrite nth_error_map, S in Hr. cbn in Hr.
+  inversion Hr. subst r. clear Hr.
+  assert (registered (s_oracles s) A = true /\ addr_of_pid (s_oracles s) = POk A /\
+          lookups (run_step c s) = [A]) as (H1 & H2 & H3).
+  { unfold run_step in *. destruct (s_dir s).
+    - pose proof (handle_lookups_enrolled _ _ _ _ _ _ E) as L. rewrite Z.eqb_refl in L.
+      apply handle_enrol_iff in E.
+      destruct E as (role & token & sig & ea & er & f1 & f2 & rest & _ & _ & (V1 & V2 & V3) & T & _).
+      repeat split; auto. apply V3, role_of_string_provider. symmetry. exact T.
+    - pose proof (handshake_lookups_enrolled _ _ _ _ _ _ E) as L. rewrite Z.eqb_refl in L.
+      apply handshake_enrol_iff in E.
+      destruct E as (role & token & sig & ea & er & f1 & f2 & rest & _ & _ & _ & _ & _ & (V1 & V2 & V3) & T & _).
+      repeat split; auto. apply V3, role_of_string_provider. symmetry. exact T. }
+  repeat split; auto. exists (run_step c s). rewrite nth_error_map, S. auto.
+Qed.
